@@ -47,6 +47,9 @@ var (
 
 type c01PanicVal struct{ id int }
 
+// c01Reasons: boundary family of Promise.Reject reasons.
+var c01Reasons = []string{"c01 reason", "", " ", "\n", strings.Repeat("长原因 ", 2000), "\x00\xff not utf-8", "503 Service Unavailable"}
+
 // ---------------------------------------------------------------- adapter
 
 // c01Inner digs the googleBreaker out of a Breaker built by New (the only place
@@ -98,6 +101,23 @@ func c01ReportHang(m *vk.M, desc string) {
 			if strings.Contains(b, "sync.(*RWMutex)") || strings.Contains(b, "sync.(*Mutex)") || strings.Contains(b, "semacquire") {
 				parked = append(parked, b)
 			}
+		}
+	}
+	if len(parked) == 0 {
+		// a Do* / Allow / Accept / Reject of a breaker that never returns: goroutines parked on a
+		// lock inside the library's own call path (not in the harness)
+		var inCall []string
+		for _, fn := range []string{"lib/breaker.loggedThrottle.", "lib/breaker.(*googleBreaker).", "lib/breaker.(*circuitBreaker).", "lib/breaker.promiseWithReason.", "lib/breaker.(*errorWindow).", "lib/collection.(*RollingWindow)."} {
+			for _, b := range vk.GoroutinesIn(fn) {
+				if strings.Contains(b, "sync.(*RWMutex)") || strings.Contains(b, "sync.(*Mutex)") || strings.Contains(b, "semacquire") {
+					inCall = append(inCall, b)
+				}
+			}
+		}
+		if len(inCall) > 0 {
+			dump := inCall[0]
+			m.Violate("C01:call:hang", desc, "a call through the breaker (Do*/Allow/Accept/Reject) did not return within %v (it takes microseconds on a healthy tree); %d goroutine(s) parked on a lock inside the breaker's call path, first:\n%s", c01Watchdog, len(inCall), dump)
+			return
 		}
 	}
 	if len(parked) > 0 {
@@ -552,7 +572,7 @@ func (r *c01Run) resolve(step int, hb *c01Brk, p c01Pending, now time.Duration, 
 		r.m.Count("promise_accept", 1)
 	} else {
 		kind = "promise-reject"
-		p.p.Reject("c01 reason")
+		p.p.Reject(c01Reasons[step%len(c01Reasons)]) // the reason text must not matter for the accounting
 		hb.md.add(now, false)
 		r.m.Count("promise_reject", 1)
 	}
@@ -1069,6 +1089,91 @@ func TestVerifC01Disabled(t *testing.T) {
 		m.Case(vk.Digest("disabled", idx, pre, failPct), tripped)
 		if m.WantSample() {
 			m.Sample(map[string]any{"case": idx, "x_pre_tripped": pre, "fail_percent_on_x": failPct, "bystander_tripped": tripped})
+		}
+	}
+}
+
+// TestVerifC01TextlessFailures: breakers that open although no failure ever carried
+// an error text (failures by panic; nil errors refused by the caller's predicate;
+// Reject with an empty reason) and whose rejections are returned to the caller
+// (no fallback). Every step is checked by the model (clauses a-d); the breaker must
+// trip, rejected calls must return ErrServiceUnavailable - and return at all.
+func TestVerifC01TextlessFailures(t *testing.T) {
+	m := vk.New(t, "C01", "per case a fresh breaker (New or registry) fed only text-less failures: panics through Do/DoWithAcceptable, ok outcomes refused by an accept-none predicate, Allow+Reject with reasons from the boundary family (incl. empty); no fallback kinds until the breaker has rejected at least 20 calls (each must return ErrServiceUnavailable), then all kinds; model clauses a-d on every step; 45 s watchdog per case => C01:call:hang; non-trivial = breaker rejected calls")
+	defer m.Done()
+	if c01SkipIfStuck(m) {
+		return
+	}
+	defer c01SetupClock(m)()
+	n := vk.N(24, 400)
+	r := m.Rand("textless")
+	stats := &c01Stats{}
+	for idx := 1; idx <= n; idx++ {
+		flavour := idx % 4 // 0 panics only, 1 nil refused only, 2 empty-reason rejects only, 3 mixed
+		br := rand.New(rand.NewSource(r.Int63()))
+		if !m.Only(idx) {
+			continue
+		}
+		desc := fmt.Sprintf("case=%d;text-less failures flavour=%d", idx, flavour)
+		m.Current(desc)
+		run := &c01Run{m: m, stats: stats, idx: idx}
+		var names []string
+		mk := func(allowFallback bool) c01Step {
+			st := c01Step{B: idx % 2, Named: idx%2 == 1 && br.Intn(2) == 0}
+			f := flavour
+			if f == 3 {
+				f = br.Intn(3)
+			}
+			switch f {
+			case 0:
+				st.Kind, st.Out, st.Pred = []string{"do", "doacc"}[br.Intn(2)], "panic", "std"
+				if allowFallback && br.Intn(2) == 0 {
+					st.Kind = []string{"dofb", "dofbacc"}[br.Intn(2)]
+				}
+			case 1:
+				st.Kind, st.Out, st.Pred = "doacc", "ok", "none"
+				if allowFallback && br.Intn(2) == 0 {
+					st.Kind = "dofbacc"
+				}
+			default:
+				st.Kind, st.Out = "allow", "uerr"
+			}
+			return st
+		}
+		pval, panicked, hung := c01Guarded(m, desc, func() {
+			var brks []*c01Brk
+			brks, names = c01NewBreakers(m, br, fmt.Sprintf("textless%d", idx), 2)
+			hb := brks[idx%2]
+			step := 0
+			for run.rejected < 20 && step < 5000 {
+				if !run.exec(step, hb, mk(false)) {
+					return
+				}
+				step++
+			}
+			if run.rejected < 20 {
+				a, tt := hb.md.window(timex.Now())
+				m.Violate("C01:trip:not-cut-off:textless-failures", run.desc(step), "%d text-less failures (window accepts=%d total=%d) and only %d rejections", step, a, tt, run.rejected)
+				return
+			}
+			for i := 0; i < 200; i++ {
+				if !run.exec(step, hb, mk(true)) {
+					return
+				}
+				step++
+			}
+		})
+		if hung {
+			return
+		}
+		if panicked {
+			m.Violate("C01:harness-observed-panic", run.desc(-1), "unexpected panic escaped a text-less scenario: %v", pval)
+		}
+		c01Forget(names...)
+		m.Case(vk.Digest("textless", idx, run.admitted, run.rejected), run.rejected > 0)
+		m.Count("textless_cases", 1)
+		if m.WantSample() {
+			m.Sample(map[string]any{"case": idx, "flavour": []string{"panics", "nil refused by predicate", "Reject with boundary reasons", "mixed"}[flavour], "admitted": run.admitted, "rejected": run.rejected})
 		}
 	}
 }
